@@ -204,6 +204,20 @@ def run(run):
     PV = Prov(A)
     E = ExcAnalysis(A)
     scriptsig_rules(run, PV)
+    # the cleared transaction reaches the device byte-exact under any chunk-request pattern: the chunk loop's decision table (rule R3 of C01) under K.
+    from . import c01
+    D_ = P.cls("ledger.hsm2dongle.HSM2Dongle")
+    sdc_ = P.method(D_, "_send_data_in_chunks")
+    dflt = {}
+    a__ = sdc_.node.args
+    ps__ = [x.arg for x in a__.args]
+    for nm__, dv__ in zip(ps__[len(ps__) - len(a__.defaults):], a__.defaults):
+        dflt[nm__] = dv__
+    run.rid_prefix = "K."
+    try:
+        c01._chunk_loop(run, Prov(A, max_variants=64), D_, sdc_, dflt)
+    finally:
+        run.rid_prefix = ""
 
     # ---------------------------------------------------------------- R3
     run.rule("R3", "Use and failure mapping in HSM2ProtocolLedger._sign: on every path to the sign_authorized call its btc_tx argument is "
